@@ -1781,6 +1781,13 @@ func termTemplate(t *T) []pseg {
 				return
 			}
 		}
+		// a single byte / rune that is part of a text (WriteByte, WriteRune, append of a byte)
+		if t.Typ != nil {
+			if b, ok := t.Typ.Underlying().(*types.Basic); ok && (b.Kind() == types.Uint8 || b.Kind() == types.Int32) {
+				add(pseg{Verb: "c", Val: t})
+				return
+			}
+		}
 		add(pseg{Verb: "s", Val: t})
 	}
 	walk(t)
@@ -1802,6 +1809,9 @@ func knownNonEmpty(t *T) bool {
 		return false
 	}
 	if b, ok := t.Typ.Underlying().(*types.Basic); !ok || b.Info()&types.IsString == 0 {
+		if ok && (b.Kind() == types.Uint8 || b.Kind() == types.Int32) {
+			return true // a text consisting of one byte / rune (the first piece written to a buffer)
+		}
 		if _, isSlice := t.Typ.Underlying().(*types.Slice); !isSlice {
 			return false
 		}
@@ -1810,8 +1820,8 @@ func knownNonEmpty(t *T) bool {
 		if sg.Val == nil && sg.Lit != "" {
 			return true
 		}
-		if sg.Val != nil && (sg.Verb == "q" || sg.Verb == "qr") {
-			return true // a quoted value has at least its quotes
+		if sg.Val != nil && (sg.Verb == "q" || sg.Verb == "qr" || sg.Verb == "c") {
+			return true // a quoted value has at least its quotes; a byte / rune is one character
 		}
 	}
 	return false
